@@ -14,7 +14,32 @@ from cv import graphs  # noqa: E402,F401  (sets up sys.path for /repo)
 from cv.core import VERIF, Check  # noqa: E402
 from cayleypy import permutation_utils as pu  # noqa: E402
 
-THEOREMS = []
+THEOREMS = [
+    "Cv.C20.isPerm_iff",
+    "Cv.C20.apply_eq_apply?",
+    "Cv.C20.apply_compose",
+    "Cv.C20.compose_assoc",
+    "Cv.C20.inverse_isPerm",
+    "Cv.C20.inverse_getD",
+    "Cv.C20.compose_inverse_right",
+    "Cv.C20.compose_inverse_left",
+    "Cv.C20.inverse_inverse",
+    "Cv.C20.apply_identity",
+    "Cv.C20.apply_inverse_cancel",
+    "Cv.C20.transposition_spec",
+    "Cv.C20.transposition_none_iff",
+    "Cv.C20.fromCycles_spec",
+    "Cv.C20.fromCycles_spec_general",
+    "Cv.C20.fromCycles_isSome_iff_exact",
+    "Cv.C20.fromCycles_some_iff",
+    "Cv.C20.fromCycles_isSome_of_nodup",
+    "Cv.C20.partitionToPermutation_isPerm",
+    "Cv.C20.partitionToPermutation_type",
+    "Cv.C20.conj_sound",
+    "Cv.C20.conj_nodup",
+    "Cv.C20.conj_complete",
+    "Cv.C20.checkClass_sound",
+]
 
 
 def L(xs):
